@@ -20,12 +20,17 @@ from pv.core import Sub, EnumSub, MachineSub, HarnessError, call, call_or, must_
 from pv.codec import build
 
 ASSUMPTIONS = [
-    'parameter names are a,b,c,d,*va,**vk and extra keywords x,y,z (never "axis": loops pops an "axis" keyword by design, never "self")',
+    'parameter names are a,b,c,d (or a,ab,abc,abcd: prefixes of one another), *va, **vk; extra / undeclared keywords x,y,z, b,bc,abcde,a_,v, '
+    'value,exc,cache,types,repeat (spelled like wrapper parameters), k000..k299 (never "axis": loops pops an "axis" keyword by design, never "self")',
+    'a keyword named "function" is never passed to pyg_base.getcallargs directly: getcallargs(function, *args, **kwargs) cannot accept it '
+    '(inspect.getcallargs can: its first parameter is positional-only) - reported as a candidate defect, kept out by construction',
+    'defaults are the strings Da..Dd, or None/0/\'\'/False, or (same_code) drawn from None,0,1,\'\',D,E,False,[],[1]',
     'argument values: ints (no bools), strings, None, lists of ints, dicts str->int - a universe on which the cache key normalisation '
     'is injective (no list/tuple twins, no 1/1.0/True, no sets); the empty dict is kept out of cache histories because cache keys '
     '{} and [] alike (same normalisation as the documented list/tuple twin)',
     'loop(list,tuple,dict) is judged only on calls whose first argument (first positional, else the first declared parameter by keyword) '
-    'is not a list/tuple/dict ("loops on non-container input")',
+    'is not a list/tuple/dict ("loops on non-container input"); a first parameter left to a list default counts as a container, '
+    'because call_with_callargs passes defaults positionally',
     'pd2np is judged only on calls that supply the first argument (positionally or as the first declared parameter by keyword): '
     'pd2np/getcallarg need it by design; values are never pandas/numpy objects ("pd2np on non-pandas input")',
     'try_back fallback is judged only on calls that supply the first argument (it returns "the first argument")',
@@ -33,8 +38,7 @@ ASSUMPTIONS = [
     'exceptions raised by f are subclasses of Exception (not KeyboardInterrupt/SystemExit)',
     'cache is judged with a non-raising f (statement); histories call plain cache(f) / cache(cache(f)) wrappers, never clear_cache',
     'stacks are built bottom-up by the library itself, so a stack never holds two layers of one class (try_none..try_list are one class)',
-    'KNOWN DEFECT excluded by construction in rewrap: re-wrapping with a decorator whose class sits under >= 2 other layers '
-    '(wrapper.__init__ strips that layer from the ORIGINAL stack in place); run_rewrap still judges such a spec when replayed',
+    'rewrap: with REWRAP_DEEP = True (the wrapper.__init__ defect F12 is fixed) the class that is wrapped again may sit at any depth of the stack',
 ]
 
 NAMES = ['a', 'b', 'c', 'd']
@@ -1330,17 +1334,19 @@ SUBS = [
         rule='random signature, random valid call with values from ints/strings/None/lists/dicts, stack of 1-3 of the 11 decorators (repeats allowed), '
              'non-raising f; result == own binding model == direct call, getargspec fields == inspect.getfullargspec(f) before and after the call, '
              'getcallargs / call_with_callargs through the stack; in half the cases the same decorator objects then wrap a second function with '
-             'another signature. In ~30% of the cases f returns a constant None / 0 / False / '' / [] / {} instead of its report; with a cache layer anywhere in the stack the same call is made twice: f evaluated exactly once (counted by side channel), same result. non-trivial = stack of >= 2 decorators, or >= 1 keyword argument and >= 1 default relied on',
+             'another signature. A third of the signatures use names that are prefixes of one another (a, ab, abc, abcd), a third defaults None/0/\'\'/False; **vk functions also get keywords spelled like wrapper parameters (value, exc, cache, types, repeat) and the ORDER in which extra keywords reach f is part of its report; class decorators are applied as D(f) or D()(f). In ~30% of the cases f returns a constant None / 0 / False / '' / [] / {} instead of its report; with a cache layer anywhere in the stack the same call is made twice: f evaluated exactly once (counted by side channel), same result. non-trivial = stack of >= 2 decorators, or >= 1 keyword argument and >= 1 default relied on',
         floor=0.5, class_floors={'depth=3': 0.15, 'kw+default': 0.07, 'second_function_same_decorators': 0.15, 'has:cache_func': 0.15, 'has:loops': 0.15,
                                  'has:pd2np': 0.12, 'has:kwargs_support': 0.12, 'has:try_back': 0.15, 'has:try_value': 0.15,
-                                 'f_returns_None': 0.08, 'f_returns_falsy': 0.08, 'cached_result_is_None': 0.03, 'cached_result_is_falsy': 0.03}),
+                                 'f_returns_None': 0.08, 'f_returns_falsy': 0.08, 'cached_result_is_None': 0.03, 'cached_result_is_falsy': 0.03,
+                                 'names_prefixes_of_one_another': 0.1, 'two_step_spelling': 0.1, 'keyword_named_like_wrapper_parameter': 0.04,
+                                 'two_extra_keywords_in_order': 0.06, 'falsy_default_relied_on': 0.025}),
     Sub('rewrap', lambda tier: s_rewrap(include_known_defect=REWRAP_DEEP), run_rewrap, quick=1500, thorough=20000,
         rule='stack of 1-3 decorators of distinct classes built on f, then wrapped again with a decorator of a class already in the stack (possibly another '
              'try_* variant); the result must have the layers and parameters of wrapping once, be == to it (dict equality of fresh wrappers), report f\'s '
              'signature, return f\'s result, and the stack that was wrapped again must behave as an identical untouched stack (valid / repeated / raising / '
              'undeclared-keyword probes incl. evaluation counts). non-trivial = the repeated class is reached through a chain (stack >= 2). '
-             'Excluded by construction (known defect): repeated class under >= 2 other layers',
-        floor=0.4, class_floors={'through_1': 0.2, 'direct': 0.2, 'variant_differs': 0.03, 'spec_cached_before': 0.15}),
+             'The repeated class may sit under 2 other layers (through_2).',
+        floor=0.4, class_floors={'through_1': 0.2, 'direct': 0.2, 'through_2': 0.05, 'variant_differs': 0.03, 'spec_cached_before': 0.15}),
     Sub('try_fallback', lambda tier: s_try(), run_try, quick=2000, thorough=30000,
         rule='one try_* layer (try_none/nan/zero/true/false/list/back), alone or with 1-2 transparent layers (kwargs_support, cache, loop, pd2np) around it; '
              'f is told to raise one of 12 Exception classes through any positional / keyword / *va / **vk slot, or not told; the wrapper must return f\'s '
@@ -1349,9 +1355,10 @@ SUBS = [
         floor=0.4, class_floors={'raises': 0.3, 'returns': 0.2, 'try_back': 0.15, 'try_list': 0.05, 'raises_all_by_keyword': 0.03}),
     Sub('kwargs_support', lambda tier: s_kws(), run_kws, quick=2000, thorough=30000,
         rule='kwargs_support (alone or with 1-2 other decorators above/below) on functions without **vk: valid call plus 1-3 undeclared keywords (x, y, z, '
-             'va, vk, function, e, names of parameters the function does not have) in any order -> result of the call without them; a declared keyword that '
+             'va, vk, function, e, value, exc, cache, names of parameters the function does not have, sub-/super-strings of declared names) in any order -> result of the call without them; a declared keyword that '
              'is also given positionally must still reach f (TypeError); functions with **vk only with declared keywords. non-trivial = >= 1 undeclared keyword',
-        floor=0.3, class_floors={'duplicate': 0.05, 'declared+undeclared_keywords': 0.1, 'undeclared_named_like_varargs': 0.05}),
+        floor=0.3, class_floors={'duplicate': 0.05, 'declared+undeclared_keywords': 0.1, 'undeclared_named_like_varargs': 0.05,
+                                 'undeclared_is_substring_or_superstring_of_declared': 0.03, 'undeclared_named_like_wrapper_parameter': 0.04}),
     MachineSub('cache_history', CacheModel, quick=(400, 30), thorough=(3000, 40),
                rule='histories of <= 30/40 calls on four cached functions (two with the same signature, one wrapped twice, one all-defaults with **vk); arguments '
                     'from a 6-element pool (0, 1, "a", None, [1,2], {"k":1}) in random positional/keyword spellings, re-issued earlier calls (keywords reordered, '
@@ -1376,7 +1383,7 @@ SUBS = [
     EnumSub('binding_grid', enum_grid, run_grid, chunks=16,
             rule='EVERY signature (0-4 positional parameters x 0..n trailing defaults x +-*va x +-**vk = 60) x EVERY split of a valid argument set '
                  '(positional prefix 0..n, each remaining parameter by keyword or left to its default, 0-2 extra positionals for *va, 0-2 extra keywords '
-                 'for **vk) x 2 value sets x keyword order forward/reversed; on each: getcallargs == inspect.getcallargs == own binding model, '
+                 'for **vk) x 2 value sets x keyword order forward/reversed, plus a third pass with names a/ab/abc/abcd, defaults None/0/\'\'/False and extra keywords b/bc; on each: getcallargs == inspect.getcallargs == own binding model, '
                  'call_with_callargs(getcallargs) == direct call, and for each of the 11 decorators alone: result, evaluated once, getargspec fields, '
                  'getcallargs/call_with_callargs through the wrapper, W(W(f)) one layer with the same result; cache(f) additionally with f returning each of None / 0 / False / \'\' / [] / {}: two identical calls, one evaluation. '
                  'non-trivial = >= 1 parameter passed by keyword and >= 1 default relied on'),
